@@ -66,6 +66,19 @@ CHECKS["C15"] = dict(
          "is outside this property; statements no flow reaches are skipped.",
     technique="TLA+ spec SierraAnnot (compile loop as a state machine with its own typing/linearity rules) run by TLC over exported real programs and accepted mutants",
     design_ref="3.2, 5/C15", engine="tlc+cvh")
+CHECKS["C14"] = dict(
+    level="exploration",
+    text="Bounded exploration of the untrusted-input space: single- and double-point mutants (21 operators: statement delete/dup/swap, "
+         "variable/libfunc/type/branch/entry-point/signature/declaration edits) of every corpus Sierra program, felt-level mutants of "
+         "every serialized contract class in the repository and random felt vectors are pushed through ProgramRegistryInfo::new, "
+         "calc_metadata (linear; LP on programs <= 250 statements), compile, extract_sierra_program and CasmContractClass::from_contract_class "
+         "under catch_unwind; the stage logs are validated by TLC against the SierraPipeline protocol specification (which has no action for a "
+         "panic or an unfinished stage). Findings are keyed by (stage, file, message). Crash detection is the harness's, hence level exploration.",
+    note="Panics are observed with catch_unwind + panic hook (file:line); aborts/hangs through the process exit status/time budget; "
+         "allocation bounded by a 24 GB address-space limit. Three known findings (LP gas solver only) are listed in known_findings.json "
+         "and replayed deterministically from corpus/findings/C14.",
+    technique="mutation-plan exploration of untrusted Sierra / felt vectors; TLA+ stage-protocol spec SierraPipeline as trace acceptor (TLC)",
+    design_ref="3.12, 5/C14", engine="tlc+cvh")
 
 NOT_YET = "check not built yet in this session (see DESIGN.md section 9 build order); no claim is made"
 
